@@ -1,13 +1,697 @@
-//! c17: bounded stand-in (E3) -- see DESIGN.md section 5
-#![allow(dead_code, unused_imports)]
+//! C17: bookmarks become a well-formed outline that reads back (E3, bounded-exhaustive).
+//!
+//! A case is: a base document (layout, page count), a sequence of `add_bookmark` calls (parent handle, title,
+//! target page) and then `adjust_zero_pages`, `build_outline`, "install /Outlines in the catalog", `get_toc`,
+//! `save_to`, `load_mem`, `get_toc`.
+//! The oracle is an abstract forest (children lists in insertion order) written from the property statement:
+//!   * the expected object graph is checked by a walk that is driven by the model (never by the library's walkers);
+//!   * /Title is decoded by a PDF text-string decoder written here (UTF-16BE with BOM / UTF-8 with BOM / PDFDocEncoding);
+//!   * the expected table of contents is the pre-order of the forest with level = depth + 1 and page = page number.
+#![allow(dead_code)]
 use crate::common::*;
-use crate::gen::*;
+use crate::gen::{dict, name, obj_eq};
+use lopdf::xref::XrefType;
+use lopdf::{Bookmark, Dictionary, Document, Object, ObjectId};
+use rayon::prelude::*;
 use serde_json::{json, Value};
+use std::cell::Cell;
+use std::collections::{BTreeMap, HashSet};
+use std::sync::OnceLock;
 
-pub fn run(_thorough: bool) -> Report {
-    Report::new("not built yet", false)
+/// parent handle that no `add_bookmark` call ever returned
+const ORPHAN: u8 = 255;
+const ORPHAN_HANDLE: u32 = 1_000_000;
+const N_LAYOUTS: u8 = 4;
+
+#[derive(Clone, Debug)]
+pub struct Case {
+    /// 0 dense ids + xref stream; 1 sparse ids, page ids descending, max_id slack, xref table;
+    /// 2 nested page tree, non-zero generations, xref table; 3 = layout 0 saved and loaded before the bookmarks are added
+    layout: u8,
+    /// 1..=3 pages
+    pages: u8,
+    /// parents[k]: 0 = top level, j (1..=k) = the handle returned by the j-th add_bookmark call, ORPHAN = a handle that does not exist
+    parents: Vec<u8>,
+    /// targets[k]: 0 = zero page (0,g), t = page number t
+    targets: Vec<u8>,
+    titles: Vec<String>,
 }
 
-pub fn replay(_v: &Value) -> Result<(), String> {
-    Err("no replay".into())
+type Fail = (String, String);
+fn fail<T>(ob: &str, d: String) -> Result<T, Fail> { Err((ob.to_string(), d)) }
+
+// ---------------------------------------------------------------------------------------------------------------
+// base documents
+// ---------------------------------------------------------------------------------------------------------------
+
+fn page_dict(parent: ObjectId) -> Object {
+    Object::Dictionary(dict(vec![
+        (b"Type", name(b"Page")),
+        (b"Parent", Object::Reference(parent)),
+        (b"MediaBox", Object::Array(vec![Object::Integer(0), Object::Integer(0), Object::Integer(10), Object::Integer(10)])),
+    ]))
+}
+
+fn pages_dict(parent: Option<ObjectId>, kids: &[ObjectId], count: i64) -> Object {
+    let mut d = dict(vec![
+        (b"Type", name(b"Pages")),
+        (b"Kids", Object::Array(kids.iter().map(|k| Object::Reference(*k)).collect())),
+        (b"Count", Object::Integer(count)),
+    ]);
+    if let Some(p) = parent { d.set("Parent", Object::Reference(p)); }
+    Object::Dictionary(d)
+}
+
+fn make_base(layout: u8, pages: u8) -> (Document, Vec<ObjectId>, ObjectId) {
+    let p = pages as usize;
+    let mut d = Document::with_version("1.5");
+    let (cat, page_ids): (ObjectId, Vec<ObjectId>) = match layout {
+        1 => {
+            // sparse, page ids in the opposite order of the page numbers, an unrelated object above them, slack in max_id
+            d.reference_table.cross_reference_type = XrefType::CrossReferenceTable;
+            let cat = (5, 0);
+            let root = (9, 0);
+            let ids: Vec<ObjectId> = (1..=p).map(|k| (40 - 10 * k as u32, 0)).collect();
+            d.objects.insert(cat, Object::Dictionary(dict(vec![(b"Type", name(b"Catalog")), (b"Pages", Object::Reference(root))])));
+            d.objects.insert(root, pages_dict(None, &ids, p as i64));
+            for id in &ids { d.objects.insert(*id, page_dict(root)); }
+            d.objects.insert((33, 0), Object::Integer(7));
+            d.max_id = 40;
+            (cat, ids)
+        }
+        2 => {
+            // nested page tree, generations != 0
+            d.reference_table.cross_reference_type = XrefType::CrossReferenceTable;
+            let cat = (1, 0);
+            let root = (2, 0);
+            let mid = (3, 0);
+            let all = [(4u32, 2u16), (6, 1), (8, 0)];
+            let ids: Vec<ObjectId> = all[..p].to_vec();
+            d.objects.insert(cat, Object::Dictionary(dict(vec![(b"Type", name(b"Catalog")), (b"Pages", Object::Reference(root))])));
+            let mut kids = vec![mid];
+            kids.extend(ids.iter().skip(1).cloned());
+            d.objects.insert(root, pages_dict(None, &kids, p as i64));
+            d.objects.insert(mid, pages_dict(Some(root), &ids[..1], 1));
+            d.objects.insert(ids[0], page_dict(mid));
+            for id in ids.iter().skip(1) { d.objects.insert(*id, page_dict(root)); }
+            d.max_id = 8;
+            (cat, ids)
+        }
+        _ => {
+            let cat = (1, 0);
+            let root = (2, 0);
+            let ids: Vec<ObjectId> = (1..=p).map(|k| (2 + k as u32, 0)).collect();
+            d.objects.insert(cat, Object::Dictionary(dict(vec![(b"Type", name(b"Catalog")), (b"Pages", Object::Reference(root))])));
+            d.objects.insert(root, pages_dict(None, &ids, p as i64));
+            for id in &ids { d.objects.insert(*id, page_dict(root)); }
+            d.max_id = 2 + p as u32;
+            (cat, ids)
+        }
+    };
+    d.trailer.set("Root", Object::Reference(cat));
+    if layout == 3 {
+        let mut out = vec![];
+        d.save_to(&mut out).expect("base save");
+        d = Document::load_mem(&out).expect("base load");
+    }
+    (d, page_ids, cat)
+}
+
+static BASES: OnceLock<Vec<(Document, Vec<ObjectId>, ObjectId)>> = OnceLock::new();
+
+fn base(layout: u8, pages: u8) -> (Document, Vec<ObjectId>, ObjectId) {
+    let l = layout.min(N_LAYOUTS - 1);
+    let p = pages.clamp(1, 3);
+    let t = BASES.get_or_init(|| {
+        let mut v = vec![];
+        for l in 0..N_LAYOUTS { for p in 1..=3u8 { v.push(make_base(l, p)); } }
+        v
+    });
+    t[(l as usize) * 3 + (p as usize - 1)].clone()
+}
+
+// ---------------------------------------------------------------------------------------------------------------
+// abstract model
+// ---------------------------------------------------------------------------------------------------------------
+
+struct Model {
+    n: usize,
+    roots: Vec<usize>,
+    children: Vec<Vec<usize>>,
+    reachable: Vec<bool>,
+    /// expected destination page after the zero-page fix-up; None: a zero page that nothing in the statement resolves
+    page: Vec<Option<usize>>,
+    /// (level, bookmark index, page number) in pre-order
+    toc: Vec<(usize, usize, usize)>,
+    in_family: bool,
+}
+
+fn model(c: &Case) -> Result<Model, String> {
+    let n = c.parents.len();
+    if c.targets.len() != n || c.titles.len() != n { return Err("malformed case".into()); }
+    let mut roots = vec![];
+    let mut children = vec![vec![]; n];
+    for k in 0..n {
+        let p = c.parents[k];
+        if p == 0 { roots.push(k); }
+        else if p == ORPHAN { }
+        else if (p as usize) <= k { children[p as usize - 1].push(k); }
+        else { return Err("parent handle does not exist yet".into()); }
+        if c.targets[k] > c.pages { return Err("target page out of range".into()); }
+    }
+    let mut reachable = vec![false; n];
+    let mut page: Vec<Option<usize>> = vec![None; n];
+    // a zero page is that of the first child (children have larger indices, so resolve from the back)
+    for k in (0..n).rev() {
+        page[k] = if c.targets[k] != 0 { Some(c.targets[k] as usize) } else { children[k].first().and_then(|&f| page[f]) };
+    }
+    let mut toc = vec![];
+    let mut in_family = true;
+    fn pre(k: usize, level: usize, ch: &Vec<Vec<usize>>, page: &Vec<Option<usize>>, reach: &mut Vec<bool>, toc: &mut Vec<(usize, usize, usize)>, ok: &mut bool) {
+        reach[k] = true;
+        match page[k] { Some(p) => toc.push((level, k, p)), None => *ok = false }
+        for &c in &ch[k] { pre(c, level + 1, ch, page, reach, toc, ok); }
+    }
+    for &r in &roots { pre(r, 1, &children, &page, &mut reachable, &mut toc, &mut in_family); }
+    // distinct titles among the reachable bookmarks
+    let mut seen = HashSet::new();
+    for k in 0..n { if reachable[k] && !seen.insert(c.titles[k].as_str()) { in_family = false; } }
+    Ok(Model { n, roots, children, reachable, page, toc, in_family })
+}
+
+// ---------------------------------------------------------------------------------------------------------------
+// independent text-string decoder (ISO 32000-1 7.9.2.2 and Annex D.2)
+// ---------------------------------------------------------------------------------------------------------------
+
+fn pdfdoc_char(b: u8) -> Option<char> {
+    const LOW: [u32; 8] = [0x02D8, 0x02C7, 0x02C6, 0x02D9, 0x02DD, 0x02DB, 0x02DA, 0x02DC];
+    const HIGH: [u32; 33] = [
+        0x2022, 0x2020, 0x2021, 0x2026, 0x2014, 0x2013, 0x0192, 0x2044, 0x2039, 0x203A, 0x2212, 0x2030, 0x201E, 0x201C, 0x201D, 0x2018,
+        0x2019, 0x201A, 0x2122, 0xFB01, 0xFB02, 0x0141, 0x0152, 0x0160, 0x0178, 0x017D, 0x0131, 0x0142, 0x0153, 0x0161, 0x017E, 0, 0x20AC,
+    ];
+    match b {
+        0x18..=0x1F => char::from_u32(LOW[(b - 0x18) as usize]),
+        // 0x00-0x17 and 0x7F are "undefined" in the table; read leniently as the control character of the same code
+        0x00..=0x7F => Some(b as char),
+        0x80..=0xA0 => { let u = HIGH[(b - 0x80) as usize]; if u == 0 { None } else { char::from_u32(u) } }
+        0xAD => None,
+        _ => Some(b as char),
+    }
+}
+
+fn decode_text(b: &[u8]) -> Result<String, String> {
+    if b.len() >= 2 && b[0] == 0xFE && b[1] == 0xFF {
+        let body = &b[2..];
+        if body.len() % 2 != 0 { return Err("odd number of bytes after the UTF-16BE byte order mark".into()); }
+        let units: Vec<u16> = body.chunks(2).map(|c| ((c[0] as u16) << 8) | c[1] as u16).collect();
+        String::from_utf16(&units).map_err(|_| "unpaired surrogate in UTF-16BE text string".to_string())
+    } else if b.len() >= 3 && b[0] == 0xEF && b[1] == 0xBB && b[2] == 0xBF {
+        String::from_utf8(b[3..].to_vec()).map_err(|_| "invalid UTF-8 text string".to_string())
+    } else {
+        let mut s = String::new();
+        for &x in b { match pdfdoc_char(x) { Some(c) => s.push(c), None => return Err(format!("byte {:#04x} is undefined in PDFDocEncoding", x)) } }
+        Ok(s)
+    }
+}
+
+// ---------------------------------------------------------------------------------------------------------------
+// the structural contract
+// ---------------------------------------------------------------------------------------------------------------
+
+fn dict_at<'a>(doc: &'a Document, id: ObjectId, what: &str) -> Result<&'a Dictionary, Fail> {
+    match doc.objects.get(&id) {
+        Some(Object::Dictionary(d)) => Ok(d),
+        Some(o) => fail("object-kind", format!("{} {:?} is not a dictionary: {:?}", what, id, o)),
+        None => fail("dangling-link", format!("{} {:?} does not exist", what, id)),
+    }
+}
+
+fn opt_ref(d: &Dictionary, key: &[u8]) -> Result<Option<ObjectId>, String> {
+    match d.get(key) {
+        Err(_) => Ok(None),
+        Ok(Object::Reference(id)) => Ok(Some(*id)),
+        Ok(o) => Err(format!("/{} is not a reference: {:?}", String::from_utf8_lossy(key), o)),
+    }
+}
+
+struct Walk<'a> {
+    doc: &'a Document,
+    case: &'a Case,
+    m: &'a Model,
+    page_ids: &'a [ObjectId],
+    seen: HashSet<ObjectId>,
+    /// every object that belongs to the outline (root, items, action dictionaries)
+    parts: HashSet<ObjectId>,
+}
+
+impl<'a> Walk<'a> {
+    fn esc(&self, k: usize) -> String { self.case.titles[k].escape_debug().to_string() }
+
+    fn level(&mut self, parent: ObjectId, kids: &[usize], is_root: bool) -> Result<(), Fail> {
+        let pd = dict_at(self.doc, parent, "outline node")?;
+        let first = opt_ref(pd, b"First").map_err(|e| ("first-last".to_string(), e))?;
+        let last = opt_ref(pd, b"Last").map_err(|e| ("first-last".to_string(), e))?;
+        if kids.is_empty() {
+            if first.is_some() || last.is_some() { return fail("first-last", format!("node {:?} has no children but First={:?} Last={:?}", parent, first, last)); }
+            return Ok(());
+        }
+        let (first, last) = match (first, last) {
+            (Some(f), Some(l)) => (f, l),
+            _ => return fail("first-last", format!("node {:?} has {} children but First={:?} Last={:?}", parent, kids.len(), first, last)),
+        };
+        let _ = is_root;
+        let mut cur = first;
+        let mut prev: Option<ObjectId> = None;
+        for (i, &b) in kids.iter().enumerate() {
+            if !self.seen.insert(cur) { return fail("no-shared-items", format!("item {:?} is reached twice", cur)); }
+            self.parts.insert(cur);
+            let d = dict_at(self.doc, cur, "outline item")?;
+            // Parent
+            match opt_ref(d, b"Parent") {
+                Ok(Some(p)) if p == parent => {}
+                other => return fail("parent-link", format!("item {:?} (child {} of {:?}, title {:?}): Parent is {:?}", cur, i, parent, self.esc(b), other)),
+            }
+            // Prev
+            match opt_ref(d, b"Prev") {
+                Ok(p) if p == prev => {}
+                other => return fail("prev-link", format!("item {:?} (child {} of {:?}): Prev is {:?}, expected {:?}", cur, i, parent, other, prev)),
+            }
+            // Title
+            let tb = match d.get(b"Title") { Ok(Object::String(s, _)) => s.clone(), other => return fail("item-title", format!("item {:?}: Title is {:?}", cur, other.ok())) };
+            let want = &self.case.titles[b];
+            match decode_text(&tb) {
+                Ok(ref s) if s == want => {}
+                got => {
+                    // is it another bookmark's title? then the order / parent is wrong, not the encoding
+                    if let Ok(s) = &got {
+                        if let Some(o) = (0..self.m.n).find(|&o| &self.case.titles[o] == s) {
+                            return fail("sibling-order", format!("child {} of {:?} should be bookmark #{} {:?} but is bookmark #{} {:?}", i, parent, b + 1, self.esc(b), o + 1, self.esc(o)));
+                        }
+                    }
+                    let raw_ok = String::from_utf8(tb.clone()).map(|s| &s == want).unwrap_or(false);
+                    let ob = if raw_ok { "item-title-pdfdocencoding" } else { "item-title" };
+                    return fail(ob, format!("item {:?}: /Title bytes {} read as a PDF text string give {:?}, the bookmark title is {:?}", cur, hex(&tb), got.map(|s| s.escape_debug().to_string()), self.esc(b)));
+                }
+            }
+            // destination
+            let want_page = match self.m.page[b] { Some(p) => self.page_ids[p - 1], None => (0, 0) };
+            let dest: Object = if d.has(b"A") {
+                let a = match d.get(b"A") {
+                    Ok(Object::Reference(id)) => { self.parts.insert(*id); dict_at(self.doc, *id, "action")? }
+                    Ok(Object::Dictionary(a)) => a,
+                    other => return fail("dest-page", format!("item {:?}: A is {:?}", cur, other.ok())),
+                };
+                match a.get(b"S") { Ok(Object::Name(n)) if n == b"GoTo" => {}, other => return fail("dest-page", format!("item {:?}: action type {:?}", cur, other.ok())) }
+                match a.get(b"D") { Ok(o) => o.clone(), Err(_) => return fail("dest-page", format!("item {:?}: action without D", cur)) }
+            } else {
+                match d.get(b"Dest") { Ok(o) => o.clone(), Err(_) => return fail("dest-page", format!("item {:?} has neither A nor Dest", cur)) }
+            };
+            let dest = match dest { Object::Reference(id) => self.doc.objects.get(&id).cloned().unwrap_or(Object::Null), o => o };
+            match &dest {
+                Object::Array(a) if !a.is_empty() && a[0] == Object::Reference(want_page) && self.doc.objects.contains_key(&want_page) => {}
+                other => return fail("dest-page", format!("item {:?} (bookmark #{} {:?}): destination {:?}, expected page {:?}", cur, b + 1, self.esc(b), other, want_page)),
+            }
+            // children
+            let sub = self.m.children[b].clone();
+            self.level(cur, &sub, false)?;
+            // Next
+            let next = opt_ref(d, b"Next");
+            if i + 1 < kids.len() {
+                match next {
+                    Ok(Some(nx)) => { prev = Some(cur); cur = nx; }
+                    other => return fail("next-link", format!("item {:?} is child {} of {} but Next is {:?}", cur, i, kids.len(), other)),
+                }
+            } else {
+                if !matches!(next, Ok(None)) { return fail("next-link", format!("last item {:?} of {:?} has Next {:?}", cur, parent, next)); }
+                if cur != last { return fail("first-last", format!("Last of {:?} is {:?} but the chain from First ends at {:?}", parent, last, cur)); }
+            }
+        }
+        Ok(())
+    }
+}
+
+fn check_structure(doc: &Document, root: ObjectId, case: &Case, m: &Model, page_ids: &[ObjectId]) -> Result<HashSet<ObjectId>, Fail> {
+    let mut w = Walk { doc, case, m, page_ids, seen: HashSet::new(), parts: HashSet::new() };
+    w.parts.insert(root);
+    let rd = dict_at(doc, root, "outline root")?;
+    if rd.has(b"Parent") || rd.has(b"Prev") || rd.has(b"Next") { return fail("first-last", format!("outline root has sibling/parent links: {:?}", rd)); }
+    let roots = m.roots.clone();
+    w.level(root, &roots, true)?;
+    Ok(w.parts)
+}
+
+fn check_toc(doc: &Document, case: &Case, m: &Model, ob: &str) -> Result<(), Fail> {
+    let toc = match doc.get_toc() { Ok(t) => t, Err(e) => return fail(ob, format!("get_toc failed: {}", e)) };
+    if !toc.errors.is_empty() { return fail(ob, format!("get_toc reported errors: {:?}", toc.errors)); }
+    let got: Vec<(usize, String, usize)> = toc.toc.iter().map(|t| (t.level, t.title.clone(), t.page)).collect();
+    let want: Vec<(usize, String, usize)> = m.toc.iter().map(|&(l, k, p)| (l, case.titles[k].clone(), p)).collect();
+    if got != want {
+        let pos = got.iter().zip(want.iter()).position(|(a, b)| a != b).unwrap_or(got.len().min(want.len()));
+        let show = |v: &Vec<(usize, String, usize)>| v.get(pos).map(|(l, t, p)| format!("(level {}, title {:?}, page {})", l, t.escape_debug().to_string(), p)).unwrap_or_else(|| "nothing".into());
+        return fail(ob, format!("{} entries, expected {}; first difference at entry {}: got {}, expected {}", got.len(), want.len(), pos, show(&got), show(&want)));
+    }
+    Ok(())
+}
+
+fn objects_same(before: &BTreeMap<ObjectId, Object>, after: &BTreeMap<ObjectId, Object>) -> Result<(), String> {
+    for (id, o) in before {
+        match after.get(id) {
+            None => return Err(format!("object {:?} disappeared", id)),
+            Some(a) => if !obj_eq(o, a) { return Err(format!("object {:?} changed from {:?} to {:?}", id, o, a)); }
+        }
+    }
+    Ok(())
+}
+
+/// the whole contract for one case; Ok(nontrivial)
+fn check_case(c: &Case, stage: &Cell<&'static str>) -> Result<bool, Fail> {
+    let m = match model(c) { Ok(m) => m, Err(e) => return fail("malformed-input", e) };
+    if !m.in_family { return Ok(false); }
+    let (mut doc, page_ids, cat) = base(c.layout, c.pages);
+    // 1. add the bookmarks
+    stage.set("add_bookmark");
+    let mut handles: Vec<u32> = vec![];
+    for k in 0..m.n {
+        let page = if c.targets[k] == 0 { (0, if k % 2 == 0 { 0 } else { 7 }) } else { page_ids[c.targets[k] as usize - 1] };
+        let color = if k % 2 == 0 { [0.0, 0.0, 0.0] } else { [1.0, 0.5, 0.25] };
+        let parent = match c.parents[k] { 0 => None, ORPHAN => Some(ORPHAN_HANDLE), j => Some(handles[j as usize - 1]) };
+        let h = doc.add_bookmark(Bookmark::new(c.titles[k].clone(), color, (k % 4) as u32, page), parent);
+        if h == 0 || handles.contains(&h) { return fail("bookmark-ids", format!("add_bookmark call {} returned handle {} (earlier handles {:?})", k + 1, h, handles)); }
+        handles.push(h);
+    }
+    let before = doc.objects.clone();
+    let max_before = doc.max_id;
+    // 2. zero-page fix-up
+    stage.set("adjust_zero_pages");
+    doc.adjust_zero_pages();
+    for k in 0..m.n {
+        if !m.reachable[k] { continue; }
+        let want = page_ids[m.page[k].unwrap() - 1];
+        let got = doc.bookmark_table.get(&handles[k]).map(|b| b.page);
+        if got != Some(want) { return fail("zero-page-fixup", format!("bookmark #{} {:?}: page after adjust_zero_pages is {:?}, expected {:?} (that of its first child)", k + 1, c.titles[k].escape_debug().to_string(), got, want)); }
+    }
+    if doc.objects != before { return fail("old-objects-untouched", "adjust_zero_pages changed the object table".into()); }
+    // 3. build
+    stage.set("build_outline");
+    let root = doc.build_outline();
+    if m.roots.is_empty() {
+        if root.is_some() { return fail("outline-returned", format!("no top-level bookmark but build_outline returned {:?}", root)); }
+        if doc.objects.len() != before.len() || objects_same(&before, &doc.objects).is_err() || doc.max_id != max_before { return fail("old-objects-untouched", "build_outline without bookmarks changed the document".into()); }
+        return Ok(false);
+    }
+    let root = match root { Some(r) => r, None => return fail("outline-returned", format!("{} top-level bookmarks but build_outline returned None", m.roots.len())) };
+    // 4. fresh identifiers
+    if let Err(e) = objects_same(&before, &doc.objects) { return fail("old-objects-untouched", e); }
+    let old_top = before.keys().map(|k| k.0).max().unwrap_or(0).max(max_before);
+    let new_ids: Vec<ObjectId> = doc.objects.keys().filter(|k| !before.contains_key(k)).cloned().collect();
+    for id in &new_ids {
+        if id.0 <= old_top || before.keys().any(|k| k.0 == id.0) { return fail("fresh-id", format!("new object {:?} is not above the old identifiers (max_id was {})", id, max_before)); }
+        if id.0 > doc.max_id { return fail("max-id-covers", format!("new object {:?} is above max_id {} after build_outline", id, doc.max_id)); }
+    }
+    if before.contains_key(&root) || !doc.objects.contains_key(&root) { return fail("fresh-id", format!("outline root {:?} is not a new object", root)); }
+    // 5. structure
+    stage.set("structure walk");
+    let parts = check_structure(&doc, root, c, &m, &page_ids)?;
+    for p in &parts { if before.contains_key(p) { return fail("fresh-id", format!("outline part {:?} reuses an old identifier", p)); } }
+    // 6. read back
+    stage.set("get_toc");
+    match doc.objects.get_mut(&cat) { Some(Object::Dictionary(d)) => d.set("Outlines", Object::Reference(root)), _ => return fail("malformed-input", "no catalog".into()) }
+    check_toc(&doc, c, &m, "toc-memory")?;
+    // 7. save, reload, read back
+    stage.set("save_to");
+    let mut out = vec![];
+    if let Err(e) = doc.save_to(&mut out) { return fail("save-ok", e.to_string()); }
+    stage.set("load_mem");
+    let re = match Document::load_mem(&out) { Ok(d) => d, Err(e) => return fail("load-ok", e.to_string()) };
+    stage.set("reloaded structure walk");
+    let root2 = match re.objects.get(&cat) {
+        Some(Object::Dictionary(d)) => match d.get(b"Outlines") { Ok(Object::Reference(r)) => *r, other => return fail("reloaded:outline-returned", format!("catalog Outlines after reload: {:?}", other.ok())) },
+        _ => return fail("reloaded:outline-returned", "catalog missing after reload".into()),
+    };
+    if root2 != root { return fail("reloaded:outline-returned", format!("Outlines is {:?} after reload, was {:?}", root2, root)); }
+    check_structure(&re, root2, c, &m, &page_ids).map_err(|(o, d)| (format!("reloaded:{}", o), d))?;
+    stage.set("reloaded get_toc");
+    check_toc(&re, c, &m, "toc-reloaded")?;
+    Ok(true)
+}
+
+const OBLIGATIONS: &[&str] = &[
+    "no-panic", "bookmark-ids", "zero-page-fixup", "outline-returned", "old-objects-untouched", "fresh-id", "max-id-covers", "first-last", "parent-link", "prev-link", "next-link",
+    "no-shared-items", "dangling-link", "object-kind", "sibling-order", "item-title", "item-title-pdfdocencoding", "dest-page", "toc-memory", "save-ok", "load-ok", "reloaded:structure", "toc-reloaded",
+];
+
+fn run_case(c: &Case) -> Result<bool, Fail> {
+    let stage = Cell::new("model");
+    match std::panic::catch_unwind(std::panic::AssertUnwindSafe(|| check_case(c, &stage))) {
+        Ok(r) => r,
+        Err(e) => {
+            let msg = if let Some(s) = e.downcast_ref::<String>() { s.clone() } else if let Some(s) = e.downcast_ref::<&str>() { s.to_string() } else { "panic".to_string() };
+            fail("no-panic", format!("panic during {}: {}", stage.get(), msg))
+        }
+    }
+}
+
+// ---------------------------------------------------------------------------------------------------------------
+// the bounded family
+// ---------------------------------------------------------------------------------------------------------------
+
+/// 23 pairwise distinct titles: ASCII (also 0 and 1 character, delimiters, line ends, controls), Latin-1, BMP, astral,
+/// and characters whose UTF-16BE bytes are the bytes that matter lexically inside a literal string
+fn alphabet() -> Vec<String> {
+    let v: Vec<String> = vec![
+        "A".into(),
+        "".into(),
+        "Chapter 1".into(),
+        "a(b\\c)d".into(),
+        ")(".into(),
+        "((".into(),
+        "line\r\nbreak\ttab\rcr\nlf".into(),
+        "\\".into(),
+        "\u{0}".into(),
+        "~\u{7f}".into(),
+        "\u{e9}".into(),                       // Latin-1
+        "x\u{80}".into(),                      // first non-ASCII, mixed
+        "\u{4e2d}\u{6587} title".into(),       // BMP
+        "\u{1f600}".into(),                    // astral
+        "\u{10ffff}\u{10000}".into(),          // last and first astral
+        "\u{d7ff}\u{e000}".into(),             // around the surrogate block
+        "\u{0d0a}\u{0a0d}".into(),             // UTF-16BE bytes CR LF LF CR
+        "\u{5c28}\u{2929}\u{285c}".into(),     // UTF-16BE bytes \ ( ) ) ( \
+        "\u{feff}bom".into(),                  // a BOM character inside the title
+        "\u{fffe}\u{ffff}".into(),             // noncharacters, bytes FF FE
+        "\u{fe}\u{ff}".into(),                 // Latin-1 thorn/ydieresis: the characters whose code is the BOM bytes
+        "e\u{301}".into(),                     // combining sequence (must not be normalised)
+        "T".repeat(300),                       // long
+    ];
+    let set: HashSet<&String> = v.iter().collect();
+    assert_eq!(set.len(), v.len());
+    assert_eq!(v.len(), 23);
+    v
+}
+
+/// every sequence of parent choices: call k (0-based) may choose top level or any of the k earlier bookmarks (and ORPHAN)
+fn parent_seqs(n: usize, with_orphan: bool) -> Vec<Vec<u8>> {
+    let mut out: Vec<Vec<u8>> = vec![vec![]];
+    for k in 0..n {
+        let mut next = vec![];
+        for s in &out {
+            for p in 0..=k as u8 { let mut t = s.clone(); t.push(p); next.push(t); }
+            if with_orphan { let mut t = s.clone(); t.push(ORPHAN); next.push(t); }
+        }
+        out = next;
+    }
+    out
+}
+
+/// every assignment of target pages: any page 1..=pages, and the zero page for bookmarks that end up with a child
+fn target_assignments(parents: &[u8], pages: u8) -> Vec<Vec<u8>> {
+    let n = parents.len();
+    let mut has_child = vec![false; n];
+    for &p in parents { if p != 0 && p != ORPHAN { has_child[p as usize - 1] = true; } }
+    let mut out: Vec<Vec<u8>> = vec![vec![]];
+    for k in 0..n {
+        let mut next = vec![];
+        for s in &out {
+            for t in (if has_child[k] { 0 } else { 1 })..=pages { let mut v = s.clone(); v.push(t); next.push(v); }
+        }
+        out = next;
+    }
+    out
+}
+
+fn rotate_titles(alpha: &[String], idx: usize, n: usize) -> Vec<String> {
+    // 5 is a unit modulo 23, so the n <= 23 titles of a case are distinct; idx moves every title through every position
+    (0..n).map(|k| alpha[(idx + 5 * k) % alpha.len()].clone()).collect()
+}
+
+fn family_shapes(thorough: bool) -> Vec<Case> {
+    let alpha = alphabet();
+    let mut cases = vec![];
+    let mut idx = 0usize;
+    // A: structure x pages x layout
+    let max_n = if thorough { 6 } else { 5 };
+    for n in 0..=max_n {
+        for parents in parent_seqs(n, false) {
+            for pages in 1..=3u8 {
+                if n == 6 && pages == 3 { continue; }
+                let layouts: Vec<u8> = if n <= 4 || (thorough && n == 5) { (0..N_LAYOUTS).collect() } else if n == 5 { vec![(idx % N_LAYOUTS as usize) as u8] } else { vec![0, 1] };
+                for targets in target_assignments(&parents, pages) {
+                    for &layout in &layouts {
+                        cases.push(Case { layout, pages, parents: parents.clone(), targets: targets.clone(), titles: rotate_titles(&alpha, idx, n) });
+                        idx += 1;
+                    }
+                }
+            }
+        }
+    }
+    cases
+}
+
+fn family_titles(thorough: bool) -> Vec<Case> {
+    // B: every ordered tuple of distinct alphabet titles on every forest of up to 3 bookmarks
+    let alpha = alphabet();
+    let a = alpha.len();
+    let mut cases = vec![];
+    let mut idx = 0usize;
+    for n in 1..=3usize {
+        for parents in parent_seqs(n, false) {
+            let mut tuple = vec![0usize; n];
+            'tuples: loop {
+                let distinct = (0..n).all(|i| (0..i).all(|j| tuple[i] != tuple[j]));
+                if distinct {
+                    let pages = if thorough { 3 } else { 2 };
+                    let targets: Vec<u8> = (0..n).map(|k| ((idx + k) % pages as usize) as u8 + 1).collect();
+                    cases.push(Case { layout: (idx % N_LAYOUTS as usize) as u8, pages, parents: parents.clone(), targets, titles: tuple.iter().map(|&t| alpha[t].clone()).collect() });
+                    idx += 1;
+                }
+                let mut i = 0;
+                loop {
+                    if i == n { break 'tuples; }
+                    tuple[i] += 1;
+                    if tuple[i] < a { break; }
+                    tuple[i] = 0;
+                    i += 1;
+                }
+            }
+        }
+    }
+    cases
+}
+
+fn family_orphans() -> Vec<Case> {
+    // E: parent handles that do not exist: the bookmark (and what is attached below it) is not part of the forest
+    let alpha = alphabet();
+    let mut cases = vec![];
+    let mut idx = 0usize;
+    for n in 1..=4usize {
+        for parents in parent_seqs(n, true) {
+            if !parents.contains(&ORPHAN) { continue; }
+            for targets in target_assignments(&parents, 2) {
+                cases.push(Case { layout: (idx % N_LAYOUTS as usize) as u8, pages: 2, parents: parents.clone(), targets, titles: rotate_titles(&alpha, idx, n) });
+                idx += 1;
+            }
+        }
+    }
+    cases
+}
+
+const SWEEP_BLOCK: u32 = 64;
+
+fn scalar_at(i: u32) -> char { char::from_u32(if i < 0xD800 { i } else { i + 0x800 }).unwrap() }
+const N_SCALARS: u32 = 0x110000 - 0x800;
+
+/// C: one document per block of 64 consecutive Unicode scalar values; each value c gives two bookmarks, titled "c" and "[c]"
+fn sweep_case(block: u32) -> Case {
+    let mut titles = vec![];
+    for i in 0..SWEEP_BLOCK {
+        let s = block * SWEEP_BLOCK + i;
+        if s >= N_SCALARS { break; }
+        let c = scalar_at(s);
+        titles.push(c.to_string());
+        titles.push(format!("[{}]", c));
+    }
+    let n = titles.len();
+    let pages = 3u8;
+    let mut parents = vec![];
+    let mut targets = vec![];
+    for j in 0..n {
+        let head = j - j % 8;
+        let has_more = head + 1 < n;
+        parents.push(match j % 8 { 0 => 0u8, 4 | 5 => j as u8, _ => head as u8 + 1 });
+        // heads of every other group are zero-page parents (when they do get a child); bookmark j%8==3 and 4 have a child too
+        targets.push(if j % 16 == 0 && has_more { 0 } else { (j % pages as usize) as u8 + 1 });
+    }
+    Case { layout: (block % N_LAYOUTS as u32) as u8, pages, parents, targets, titles }
+}
+
+pub fn case_json(c: &Case) -> Value {
+    json!({"layout": c.layout, "pages": c.pages, "parents": c.parents, "targets": c.targets,
+           "titles": c.titles.iter().map(|t| hex(t.as_bytes())).collect::<Vec<_>>(),
+           "titles_readable": c.titles.iter().map(|t| { let mut s = t.escape_debug().to_string(); if s.len() > 40 { s = format!("{}...({} chars)", s.chars().take(20).collect::<String>(), t.chars().count()); } s }).collect::<Vec<_>>()})
+}
+
+pub fn case_from_json(v: &Value) -> Result<Case, String> {
+    let nums = |k: &str| -> Result<Vec<u8>, String> { v[k].as_array().ok_or(format!("missing {}", k))?.iter().map(|x| x.as_u64().map(|x| x as u8).ok_or(format!("bad {}", k))).collect() };
+    let titles = v["titles"].as_array().ok_or("missing titles")?.iter().map(|t| String::from_utf8(unhex(t.as_str().unwrap_or(""))).map_err(|_| "title is not UTF-8".to_string())).collect::<Result<Vec<_>, _>>()?;
+    Ok(Case { layout: v["layout"].as_u64().unwrap_or(0) as u8, pages: v["pages"].as_u64().unwrap_or(1) as u8, parents: nums("parents")?, targets: nums("targets")?, titles })
+}
+
+fn describe(c: &Case) -> String {
+    let t: Vec<String> = c.titles.iter().take(6).map(|t| t.escape_debug().to_string().chars().take(16).collect()).collect();
+    format!("layout={} pages={} parents={:?} targets={:?} titles={:?}{}", c.layout, c.pages, &c.parents[..c.parents.len().min(12)], &c.targets[..c.targets.len().min(12)], t, if c.titles.len() > 6 { " ..." } else { "" })
+}
+
+fn evaluate(rep: &mut Report, cases: &[Case], sample_every: usize) {
+    for chunk in cases.chunks(1 << 16) {
+        let res: Vec<Result<bool, Fail>> = chunk.par_iter().map(run_case).collect();
+        for (c, r) in chunk.iter().zip(res) {
+            match r {
+                Ok(nt) => { rep.case(nt); if rep.evaluations as usize % sample_every == 1 { rep.sample(describe(c)); } }
+                Err((ob, d)) => { rep.case(true); rep.fail(&ob, d.clone(), case_json(c), d); }
+            }
+        }
+    }
+}
+
+pub fn run(thorough: bool) -> Report {
+    let bound = if thorough {
+        "A: every sequence of n<=6 add_bookmark calls (call k attaches to the top level or to any of the k-1 earlier bookmarks: n! sequences = every ordered forest in every attachment order) x documents of 1..3 pages (1..2 for n=6) x every target assignment (each bookmark: any page, or the zero page if it has a child) x 4 document layouts (dense ids+xref stream / sparse ids, reversed page ids, max_id slack / nested page tree with non-zero generations / loaded from a file; n=6: first two layouts), titles rotated through a 23-title alphabet; B: every ordered tuple of distinct titles of the 23-title alphabet (empty, 1 char, delimiters, CR/LF, controls, Latin-1, BMP, astral, noncharacters, UTF-16 bytes equal to ( ) \\ CR LF, BOM, 300 chars) on every forest of <=3 bookmarks; C: every Unicode scalar value c (1,112,064) as title \"c\" and \"[c]\" in 17,376 documents of 128 bookmarks (depth 3, zero-page parents); E: n<=4 calls where any call may name a parent handle that does not exist x every target assignment, 2 pages. Each case: adjust_zero_pages, build_outline, model-driven walk of the object graph, get_toc, save_to, load_mem, walk and get_toc again. Not covered: cyclic/shared children lists written directly into Bookmark.children, max_id below an existing object id, duplicate titles"
+    } else {
+        "A: every sequence of n<=5 add_bookmark calls (call k attaches to the top level or to any of the k-1 earlier bookmarks: n! sequences = every ordered forest in every attachment order) x documents of 1..3 pages x every target assignment (each bookmark: any page, or the zero page if it has a child) x 4 document layouts for n<=4 (dense ids+xref stream / sparse ids, reversed page ids, max_id slack / nested page tree with non-zero generations / loaded from a file; n=5: one layout per case in rotation), titles rotated through a 23-title alphabet; B: every ordered tuple of distinct titles of the 23-title alphabet (empty, 1 char, delimiters, CR/LF, controls, Latin-1, BMP, astral, noncharacters, UTF-16 bytes equal to ( ) \\ CR LF, BOM, 300 chars) on every forest of <=3 bookmarks; C: every Unicode scalar value c (1,112,064) as title \"c\" and \"[c]\" in 17,376 documents of 128 bookmarks (depth 3, zero-page parents); E: n<=4 calls where any call may name a parent handle that does not exist x every target assignment, 2 pages. Each case: adjust_zero_pages, build_outline, model-driven walk of the object graph, get_toc, save_to, load_mem, walk and get_toc again. Not covered: cyclic/shared children lists written directly into Bookmark.children, max_id below an existing object id, duplicate titles"
+    };
+    let mut rep = Report::new(bound, true);
+    rep.obligations = OBLIGATIONS.len() as u64;
+    let _ = base(0, 1);
+    let prev = std::panic::take_hook();
+    std::panic::set_hook(Box::new(|_| {}));
+    let t0 = std::time::Instant::now();
+    let a = if std::env::var("C17_SKIPA").is_ok() { vec![] } else { family_shapes(thorough) };
+    evaluate(&mut rep, &a, 40_001);
+    eprintln!("A {} {:?}", a.len(), t0.elapsed());
+    drop(a);
+    let b = if std::env::var("C17_SKIPB").is_ok() { vec![] } else { family_titles(thorough) };
+    evaluate(&mut rep, &b, 20_001);
+    eprintln!("B {} {:?}", b.len(), t0.elapsed());
+    drop(b);
+    let e = family_orphans();
+    evaluate(&mut rep, &e, 5_001);
+    eprintln!("E {} {:?}", e.len(), t0.elapsed());
+    drop(e);
+    let blocks = (N_SCALARS + SWEEP_BLOCK - 1) / SWEEP_BLOCK;
+    let blocks = if std::env::var("C17_SKIPC").is_ok() { 0 } else { blocks };
+    let c: Vec<Case> = (0..blocks).into_par_iter().map(sweep_case).collect();
+    evaluate(&mut rep, &c, 9_001);
+    eprintln!("C {} {:?}", c.len(), t0.elapsed());
+    std::panic::set_hook(prev);
+    rep
+}
+
+pub fn replay(v: &Value) -> Result<(), String> {
+    let c = case_from_json(v)?;
+    let r = guarded(std::panic::AssertUnwindSafe(|| run_case(&c)));
+    match r {
+        Ok(Ok(_)) => Ok(()),
+        Ok(Err((ob, d))) => Err(format!("{}: {}", ob, d)),
+        Err(p) => Err(format!("no-panic: {}", p)),
+    }
 }
